@@ -317,3 +317,322 @@ Section Plain.
           -- apply negb_true_iff in O. subst opt. reflexivity.
           -- destruct g0; [discriminate|]. cbn [guard_none forallb is_vnone]. now rewrite andb_false_r.
   Qed.
+
+  Lemma run_fields_inst fs has_wd cn vals :
+    forallb wf_fld fs = true -> NoDup (map fname fs) -> wf_attrs fs vals = true ->
+    forallb (shape3_free_fld g0 has_wd (Some (VD cn vals))) fs = true ->
+    run_fields g0 order_std cached fs (wdof has_wd (VD cn vals)) [VD cn vals] = vals.
+  Proof.
+    intros W ND WA S3. unfold run_fields. apply map_pointwise; [now apply wf_attrs_length|].
+    intros g [m y] Hin. destruct (attr_at cn fs vals g m y WA ND Hin) as [At [-> Wy]].
+    apply run_fld_inst; auto.
+    - now exists cn, vals.
+    - rewrite forallb_forall in W. apply W. now apply in_combine_l in Hin.
+    - rewrite forallb_forall in S3. apply S3. now apply in_combine_l in Hin.
+  Qed.
+
+  (* a wrapper with no default instance anywhere above it: the constructor's own value *)
+  Lemma run_fld_construct g :
+    wf_fld g = true -> shape3_free_fld g0 false None g = true ->
+    run_fld g0 order_std cached None [] g = construct_fld g.
+  Proof.
+    destruct g as [n t d fac|n opt cn cfs nd]; intros W S3.
+    - cbn [run_fld construct_fld]. rewrite default_from_field.
+      cbn [wf_fld] in W. apply andb_true_iff in W as [C T]. now rewrite (postprocess_default_id t d C T).
+    - destruct (wf_fld_nest _ _ _ _ _ W) as [Wc [ND Wd]].
+      cbn [run_fld construct_fld child_default child_defaults]. cbn [shape3_free_fld] in S3.
+      assert (K : forall vals, default_value cn cfs nd = VD cn vals -> wf_attrs cfs vals = true ->
+                  (if opt && guard_none g0 None [VD cn vals]
+                      && leaves_at_default order_std cached cfs
+                           (map (run_fld g0 order_std cached None [VD cn vals]) cfs) None [VD cn vals]
+                   then vnone else VD cn (map (run_fld g0 order_std cached None [VD cn vals]) cfs)) = VD cn vals).
+      { intros vals E WA. rewrite E in S3. cbn [some_inst is_vnone] in S3. apply andb_true_iff in S3 as [S3a S3c].
+        pose proof (run_fields_inst cfs false cn vals Wc ND WA S3c) as R. unfold run_fields in R. cbn [wdof] in R. rewrite R.
+        cbn [orb] in S3a. apply orb_true_iff in S3a as [O|G].
+        - apply negb_true_iff in O. subst opt. reflexivity.
+        - destruct g0; [discriminate|]. cbn [guard_none forallb is_vnone]. now rewrite andb_false_r. }
+      destruct nd as [| |i].
+      + cbn [default_value] in *. f_equal. apply (K (construct_fields cfs) eq_refl). now apply construct_wf_attrs.
+      + cbn [default_value]. subst opt. change (VL VNone) with vnone.
+        rewrite guard_none_vnone, (leaves_at_default_none cfs Wc). reflexivity.
+      + cbn [default_value] in *. unfold wf_inst in Wd. destruct i as [v|c vals]; [discriminate|].
+        apply andb_true_iff in Wd as [Ec WA]. apply String.eqb_eq in Ec. subst c. f_equal. now apply (K vals eq_refl).
+  Qed.
+
+  Lemma run_fields_construct fs :
+    forallb wf_fld fs = true -> forallb (shape3_free_fld g0 false None) fs = true ->
+    run_fields g0 order_std cached fs None [] = construct_fields fs.
+  Proof.
+    intros W S3. unfold run_fields, construct_fields. apply map_ext_in. intros g Hin.
+    rewrite forallb_forall in W, S3. now apply run_fld_construct; [apply W | apply S3].
+  Qed.
+
+  Theorem parse_plain_meets f :
+    wf_forest f = true -> shape3_free g0 f = true -> parse_plain g0 order_std cached f = spec_C01 f.
+  Proof.
+    unfold wf_forest, shape3_free, parse_plain, spec_C01. intros W S3. apply andb_true_iff in W as [_ W].
+    apply map_ext_in. intros [[d c] i] Hin. rewrite forallb_forall in W, S3.
+    specialize (W _ Hin). specialize (S3 _ Hin). cbn beta iota in W, S3. unfold wf_entry in W.
+    apply andb_true_iff in W as [Wf Wi]. unfold wf_fields in Wf. apply andb_true_iff in Wf as [Wc Wn].
+    apply str_nodupb_NoDup in Wn. f_equal. destruct i as [D|].
+    - unfold wf_inst in Wi. destruct D as [v|cn vals]; [discriminate|]. apply andb_true_iff in Wi as [Ec WA].
+      apply String.eqb_eq in Ec. subst cn. cbn [root_defaults is_some] in *. f_equal.
+      apply (run_fields_inst (snd c) true (fst c) vals Wc Wn WA S3).
+    - cbn [root_defaults is_some] in *. unfold construct. f_equal. now apply run_fields_construct.
+  Qed.
+End Plain.
+
+(* ---------------------------------------------------------------------------------------------- *)
+(* the boolean equalities used by uniform_scope decide Leibniz equality                             *)
+(* ---------------------------------------------------------------------------------------------- *)
+Lemma list_beq_eq {A} (eqb : A -> A -> bool) (l1 l2 : list A) :
+  Forall (fun x => forall y, eqb x y = true -> x = y) l1 -> list_beq eqb l1 l2 = true -> l1 = l2.
+Proof.
+  intros F. revert l2. induction F as [|x r Hx _ IH]; intros [|y r2] H; cbn in H; try discriminate; [reflexivity|].
+  apply andb_true_iff in H as [H1 H2]. f_equal; [now apply Hx | now apply IH].
+Qed.
+
+Lemma strs_beq_eq l1 l2 : list_beq String.eqb l1 l2 = true -> l1 = l2.
+Proof. apply list_beq_eq. apply Forall_forall. intros x _ y H. now apply String.eqb_eq. Qed.
+
+Lemma value_eqb_eq : forall a b, value_eqb a b = true -> a = b.
+Proof.
+  induction a using value_ind'; intros w E; destruct w; cbn [value_eqb] in E; try discriminate.
+  - apply Z.eqb_eq in E. now subst.
+  - apply andb_true_iff in E as [E E3]. apply andb_true_iff in E as [E1 E2].
+    apply Bool.eqb_prop in E1. apply Z.eqb_eq in E2. apply String.eqb_eq in E3. now subst.
+  - apply String.eqb_eq in E. now subst.
+  - apply Bool.eqb_prop in E. now subst.
+  - reflexivity.
+  - apply String.eqb_eq in E. now subst.
+  - apply String.eqb_eq in E. now subst.
+  - f_equal. revert vs0 E. induction H as [|x r Hx _ IH]; intros [|y r2] E; try discriminate; [reflexivity|].
+    apply andb_true_iff in E as [E1 E2]. f_equal; [now apply Hx | now apply IH].
+  - f_equal. revert vs0 E. induction H as [|x r Hx _ IH]; intros [|y r2] E; try discriminate; [reflexivity|].
+    apply andb_true_iff in E as [E1 E2]. f_equal; [now apply Hx | now apply IH].
+Qed.
+
+Section VtInd.
+  Variable P : vt -> Prop.
+  Hypothesis HL : forall v, P (VL v).
+  Hypothesis HD : forall cn fs, Forall (fun p => P (snd p)) fs -> P (VD cn fs).
+  Fixpoint vt_ind' (v : vt) : P v :=
+    match v with
+    | VL x => HL x
+    | VD cn fs => HD cn fs ((fix go (l : list (string * vt)) : Forall (fun p => P (snd p)) l :=
+                              match l with
+                              | [] => Forall_nil _
+                              | p :: r => Forall_cons p (vt_ind' (snd p)) (go r)
+                              end) fs)
+    end.
+End VtInd.
+
+Lemma vt_eqb_eq : forall a b, vt_eqb a b = true -> a = b.
+Proof.
+  induction a using vt_ind'; intros b E; destruct b as [w|c2 f2]; cbn [vt_eqb] in E; try discriminate.
+  - f_equal. now apply value_eqb_eq.
+  - apply andb_true_iff in E as [Ec E]. apply String.eqb_eq in Ec. subst c2. f_equal.
+    revert f2 E. induction H as [|[n x] r Hx _ IH]; intros [|[m y] r2] E; try discriminate; [reflexivity|].
+    apply andb_true_iff in E as [E E2]. apply andb_true_iff in E as [En Ex]. apply String.eqb_eq in En. subst m.
+    cbn [snd] in Hx. f_equal; [f_equal; now apply Hx | now apply IH].
+Qed.
+
+Section TyInd.
+  Variable P : ty -> Prop.
+  Hypothesis H0 : P TInt. Hypothesis H1 : P TFloat. Hypothesis H2 : P TStr. Hypothesis H3 : P TBool. Hypothesis H4 : P TPath.
+  Hypothesis H5 : forall ms, P (TEnum ms). Hypothesis H6 : forall cs, P (TLit cs).
+  Hypothesis H7 : forall t, P t -> P (TList t).
+  Hypothesis H8 : forall ts, Forall P ts -> P (TTupFix ts).
+  Hypothesis H9 : forall t, P t -> P (TTupVar t).
+  Hypothesis H10 : forall t, P t -> P (TOpt t).
+  Fixpoint ty_ind' (t : ty) : P t :=
+    match t with
+    | TInt => H0 | TFloat => H1 | TStr => H2 | TBool => H3 | TPath => H4 | TEnum ms => H5 ms | TLit cs => H6 cs
+    | TList u => H7 u (ty_ind' u)
+    | TTupFix ts => H8 ts ((fix go (l : list ty) : Forall P l :=
+                              match l with [] => Forall_nil P | x :: r => Forall_cons x (ty_ind' x) (go r) end) ts)
+    | TTupVar u => H9 u (ty_ind' u)
+    | TOpt u => H10 u (ty_ind' u)
+    end.
+End TyInd.
+
+Lemma ty_beq_eq : forall a b, ty_beq a b = true -> a = b.
+Proof.
+  induction a using ty_ind'; intros b E; destruct b; cbn [ty_beq] in E; try discriminate; try reflexivity.
+  - f_equal. now apply strs_beq_eq.
+  - f_equal. revert E. apply list_beq_eq. apply Forall_forall. intros x _ y Hxy.
+    destruct x, y; try discriminate; f_equal; [now apply String.eqb_eq | now apply Z.eqb_eq].
+  - f_equal. now apply IHa.
+  - f_equal. revert ts0 E. induction H as [|x r Hx _ IH]; intros [|y r2] E; try discriminate; [reflexivity|].
+    apply andb_true_iff in E as [E1 E2]. f_equal; [now apply Hx | now apply IH].
+  - f_equal. now apply IHa.
+  - f_equal. now apply IHa.
+Qed.
+
+Lemma fld_beq_eq : forall a b, fld_beq a b = true -> a = b.
+Proof.
+  induction a as [n t d fac|n opt cn cfs nd IH] using fld_ind'; intros b E; destruct b as [n2 t2 d2 fac2|n2 opt2 cn2 cfs2 nd2];
+    cbn [fld_beq] in E; try discriminate.
+  - repeat (apply andb_true_iff in E as [E ?]).
+    apply String.eqb_eq in E. apply ty_beq_eq in H1. apply value_eqb_eq in H0. apply Bool.eqb_prop in H. now subst.
+  - repeat (apply andb_true_iff in E as [E ?]).
+    apply String.eqb_eq in E. apply Bool.eqb_prop in H2. apply String.eqb_eq in H1. subst.
+    assert (nd = nd2).
+    { destruct nd, nd2; cbn in H0; try discriminate; try reflexivity. f_equal. now apply vt_eqb_eq. }
+    subst. f_equal.
+    revert cfs2 H. induction IH as [|x r Hx _ IHr]; intros [|y r2] E; try discriminate; [reflexivity|].
+    apply andb_true_iff in E as [E1 E2]. f_equal; [now apply Hx | now apply IHr].
+Qed.
+
+Lemma dcls_beq_eq a b : dcls_beq a b = true -> a = b.
+Proof.
+  destruct a as [c1 f1], b as [c2 f2]. unfold dcls_beq. cbn [fst snd]. intros E.
+  apply andb_true_iff in E as [Ec Ef]. apply String.eqb_eq in Ec. subst. f_equal.
+  revert Ef. apply list_beq_eq. apply Forall_forall. intros x _ y. apply fld_beq_eq.
+Qed.
+
+(* ---------------------------------------------------------------------------------------------- *)
+(* ALWAYS_MERGE, the same class at k >= 2 destinations: per-destination default lists               *)
+(* ---------------------------------------------------------------------------------------------- *)
+Definition chain_today : list pk_test := [PkContainerTypeAndLenNeN; PkNotIsList].
+Definition chain_repaired : list pk_test := [PkSingleValue; PkContainerTypeAndLenNeN; PkNotIsList].
+Definition chain_known (chain : list pk_test) : Prop := chain = chain_today \/ chain = chain_repaired.
+Lemma pk_chain_known : chain_known pk_chain_gen.
+Proof. first [left; reflexivity | right; reflexivity]. Qed.
+
+Lemma leb_k_1 k : 2 <= k -> Nat.leb k 1 = false.
+Proof. intros H. apply Nat.leb_gt. lia. Qed.
+
+(* one entry per destination already: kept as it is *)
+Lemma package_per_dest chain t k l :
+  chain_known chain -> 2 <= k -> List.length l = k -> package chain t k (VList l, false) = Ok (VList l).
+Proof.
+  intros [-> | ->] Hk Hl; unfold package; rewrite (leb_k_1 k Hk); cbn [orb is_VNone];
+    cbn [pk_holds chain_today chain_repaired py_len is_vlist negb]; rewrite Hl, Nat.eqb_refl; cbn [negb];
+    destruct (is_seq_ty t); cbn; rewrite Hl, Nat.eqb_refl; reflexivity.
+Qed.
+
+Lemma duplicate_list t k l :
+  2 <= k -> List.length l = k -> duplicate_if_needed t (VList l) k = Ok l.
+Proof.
+  intros Hk Hl. destruct l as [|a [|b r]]; cbn [List.length] in Hl; try lia. subst k.
+  unfold duplicate_if_needed.
+  destruct (negb (is_tuple_ty t) && negb (is_list_ty t)); cbv iota beta; now rewrite Nat.eqb_refl.
+Qed.
+
+Lemma duplicate_none t k : 2 <= k -> duplicate_if_needed t VNone k = Ok (repeat VNone k).
+Proof.
+  intros Hk. unfold duplicate_if_needed. cbn [List.length].
+  assert (E : Nat.eqb 1 k = false) by (apply Nat.eqb_neq; lia). rewrite E.
+  destruct (negb (is_tuple_ty t) && negb (is_list_ty t)); reflexivity.
+Qed.
+
+Lemma nth_repeat_lt {A} (a d : A) k i : i < k -> nth i (repeat a k) d = a.
+Proof. revert i. induction k as [|k IH]; intros [|i] H; cbn; try lia; [reflexivity | apply IH; lia]. Qed.
+
+(* one value for all destinations: replicated — unless it is a Python list that is taken for "one entry per destination" (#4) *)
+Lemma package_single chain t k d :
+  chain_known chain -> 2 <= k -> has_type d t = true -> d <> VNone ->
+  pk_repaired chain || negb (dealt_shape k t d) = true ->
+  package chain t k (d, true) = Ok (VList (repeat d k)).
+Proof.
+  intros Hc Hk T NN ND. unfold package. rewrite (leb_k_1 k Hk).
+  assert (E : is_VNone d = false) by (destruct d; try reflexivity; congruence). rewrite E. cbn [orb].
+  assert (W : pk_holds chain t k d true = Ok true).
+  { destruct Hc as [-> | ->]; [|reflexivity].
+    cbn [pk_repaired chain_today orb] in ND. apply negb_true_iff in ND.
+    cbn [pk_holds chain_today].
+    destruct t; cbn [is_seq_ty]; destruct d; cbn [has_type] in T; try discriminate; try reflexivity;
+      cbn [dealt_shape] in ND; try discriminate; cbn [py_len is_vlist negb].
+    - rewrite ND. reflexivity.
+    - destruct (Nat.eqb (List.length vs) k); reflexivity.
+    - destruct (Nat.eqb (List.length vs) k); reflexivity. }
+  rewrite W. cbn [py_len]. rewrite repeat_length, Nat.eqb_refl. reflexivity.
+Qed.
+
+Lemma map_res_ok {A B} (F : A -> res B) (G : A -> B) l :
+  (forall a, In a l -> F a = Ok (G a)) -> map_res F l = Ok (map G l).
+Proof.
+  induction l as [|a r IH]; intros H; [reflexivity|].
+  cbn [map_res map]. rewrite (H a (or_introl eq_refl)), IH; [reflexivity | intros; apply H; now right].
+Qed.
+
+Lemma non_none_insts defs : Forall is_inst defs -> non_none defs = defs.
+Proof.
+  induction 1 as [|D r HD _ IH]; [reflexivity|]. cbn [non_none filter]. rewrite (is_inst_not_vnone D HD). cbn [negb].
+  f_equal. exact IH.
+Qed.
+
+Lemma in_combine_ex {A B} (l1 : list A) (l2 : list B) a :
+  List.length l1 = List.length l2 -> In a l1 -> exists b, In (a, b) (combine l1 l2).
+Proof.
+  revert l2. induction l1 as [|x r IH]; intros [|y r2] L Hin; cbn in L; try discriminate; [destruct Hin|].
+  destruct Hin as [->|Hin]; [exists y; now left|].
+  destruct (IH r2 (f_equal pred L) Hin) as [b Hb]. exists b. now right.
+Qed.
+
+Lemma attr_member cn fs vals g :
+  wf_attrs fs vals = true -> NoDup (map fname fs) -> In g fs -> wf_inst_fld g (attr (VD cn vals) (fname g)) = true.
+Proof.
+  intros WA ND Hin. destruct (in_combine_ex fs vals g (wf_attrs_length _ _ WA) Hin) as [[m y] Hc].
+  destruct (attr_at cn fs vals g m y WA ND Hc) as [-> [_ W]]. exact W.
+Qed.
+
+Lemma attrs_rebuild cn fs vals :
+  wf_attrs fs vals = true -> NoDup (map fname fs) -> map (fun g => (fname g, attr (VD cn vals) (fname g))) fs = vals.
+Proof.
+  intros WA ND. apply map_pointwise; [now apply wf_attrs_length|].
+  intros g [m y] Hin. destruct (attr_at cn fs vals g m y WA ND Hin) as [-> [-> _]]. reflexivity.
+Qed.
+
+Section Uniform.
+  Variable chain : list pk_test.
+  Hypothesis Hchain : chain_known chain.
+  Variables k i : nat.
+  Hypothesis Hk : 2 <= k.
+  Hypothesis Hi : i < k.
+
+  (* the merged wrapper has one default instance per destination: destination i gets the attributes of instance i *)
+  Lemma uni_fld_inst : forall g defs,
+    List.length defs = k -> Forall is_inst defs -> wf_fld g = true -> has_optional_fld g = false ->
+    (forall D, In D defs -> wf_inst_fld g (attr D (fname g)) = true) ->
+    uni_fld order_std chain k i defs g = Ok (fname g, attr (nth i defs vnone) (fname g)).
+  Proof.
+    induction g as [n t d fac|n opt cn cfs nd IH] using fld_ind'; intros defs L I W O WD.
+    - cbn [uni_fld fname] in *. unfold uni_leaf.
+      assert (R : raw_default order_std None defs n d fac = (VList (map (fun D => as_value (attr D n)) defs), false)).
+      { cbn [raw_default order_std]. rewrite (non_none_insts defs I).
+        destruct defs as [|D [|D2 more]]; cbn [List.length] in L; try lia.
+        assert (E : Nat.eqb (List.length (D :: D2 :: more)) 1 = false) by reflexivity. rewrite E. reflexivity. }
+      rewrite R, (package_per_dest chain t k _ Hchain Hk) by (now rewrite map_length).
+      rewrite (leb_k_1 k Hk), (duplicate_list t k _ Hk) by (now rewrite map_length).
+      change VNone with ((fun D => as_value (attr D n)) vnone). rewrite map_nth.
+      assert (Hin : In (nth i defs vnone) defs) by (apply nth_In; lia).
+      specialize (WD _ Hin). cbn [wf_inst_fld] in WD. destruct (attr (nth i defs vnone) n) as [v|]; [|discriminate].
+      cbn [as_value]. cbn [wf_fld] in W. apply andb_true_iff in W as [C _]. now rewrite (postprocess_default_id t v C WD).
+    - destruct (wf_fld_nest _ _ _ _ _ W) as [Wc [ND _]].
+      cbn [has_optional_fld] in O. apply orb_false_iff in O as [-> Oc].
+      cbn [uni_fld fname] in *.
+      assert (NE : match defs with [] => repeat (default_value cn cfs nd) k | _ :: _ => map (fun D => attr D n) defs end
+                   = map (fun D => attr D n) defs) by (destruct defs; [cbn in L; lia | reflexivity]).
+      rewrite NE. clear NE. set (cdefs := map (fun D => attr D n) defs).
+      (* every member default is an instance of cn with well-formed attributes *)
+      assert (CI : forall D', In D' cdefs -> exists vals, D' = VD cn vals /\ wf_attrs cfs vals = true).
+      { intros D' Hin. apply in_map_iff in Hin as [D [<- HD]]. specialize (WD D HD).
+        destruct (attr D n) as [v|c vals]; [destruct v; discriminate|].
+        rewrite wf_inst_fld_nest in WD. apply andb_true_iff in WD as [Ec WA]. apply String.eqb_eq in Ec. subst c. now exists vals. }
+      assert (CL : List.length cdefs = k) by (unfold cdefs; now rewrite map_length).
+      assert (CF : Forall is_inst cdefs).
+      { apply Forall_forall. intros D' Hin. destruct (CI D' Hin) as [vals [-> _]]. now exists cn, vals. }
+      rewrite (map_res_ok _ (fun g => (fname g, attr (nth i cdefs vnone) (fname g)))).
+      + assert (Hin : In (nth i cdefs vnone) cdefs) by (apply nth_In; lia).
+        destruct (CI _ Hin) as [vals [E WA]].
+        assert (E2 : attr (nth i defs vnone) n = VD cn vals).
+        { rewrite <- E. unfold cdefs. change vnone with ((fun D => attr D n) vnone) at 2. now rewrite map_nth. }
+        rewrite E2, E, (attrs_rebuild cn cfs vals WA ND). reflexivity.
+      + intros g Hg. rewrite Forall_forall in IH. apply (IH g Hg cdefs CL CF).
+        * rewrite forallb_forall in Wc. now apply Wc.
+        * cbn [has_optional] in *. destruct (has_optional_fld g) eqn:Og; [|reflexivity].
+          exfalso. assert (X : existsb has_optional_fld cfs = true) by (apply existsb_exists; now exists g). congruence.
+        * intros D' HD'. destruct (CI D' HD') as [vals [-> WA]]. exact (attr_member cn cfs vals g WA ND Hg).
+  Qed.
